@@ -386,6 +386,58 @@ def gen_map_pkg(rng, force=None):
     return build_map_pkg(rng, specs)
 
 
+def gen_map_rich_pkg(rng, force=None):
+    """map pairs using the features the small state model leaves out: embedded (pointer) structs, `map:"…"` tags,
+    mapper functions, manual methods.  Model: the per-type output is an arbitrary function of the type (C08_run_pure);
+    checked by AST equality of combined / per-process / permuted runs"""
+    n = rng.choice([2, 3, 3, 4])
+    names = list(TYPE_NAMES)
+    rng.shuffle(names)
+    names = names[:n]
+    src = ["package src", "", "type Conv struct{}", "",
+           "func (Conv) IntToString(i int) string { return \"\" }", "", "func (Conv) StringToInt(s string) int { return 0 }", ""]
+    dst = ["package dest", ""]
+    bodies = {}
+    all_types = []
+    for k, nm in enumerate(names):
+        feats = set(f for f in ["embed", "ptrembed", "tag", "func", "manual"] if rng.random() < 0.45)
+        sf, df = ["\tID int", "\tName string"], ["\tID int", "\tName string"]
+        if "func" in feats:
+            src_first = ["\tConv"]
+            sf.append("\tCount int")
+            df.append("\tCount string")
+        else:
+            src_first = []
+        if "tag" in feats:
+            sf.append("\tSrcLabel string `map:\"Label\"`")
+            df.append("\tLabel string")
+        if "embed" in feats:
+            src.append("type %sBase struct {\n\tAge int\n\tNote string\n}\n" % nm)
+            dst.append("type %sBase struct {\n\tAge int\n\tNote string\n}\n" % nm)
+            sf.append("\t%sBase" % nm)
+            df.append("\t%sBase" % nm)
+            all_types.append(nm + "Base")
+        if "ptrembed" in feats:
+            src.append("type %sPtr struct {\n\tKind int\n}\n" % nm)
+            dst.append("type %sPtr struct {\n\tKind int\n\t*%sDeep\n}\n\ntype %sDeep struct {\n\tScore int\n}\n" % (nm, nm, nm))
+            sf += ["\t*%sPtr" % nm, "\tScore int"]
+            df.append("\t*%sPtr" % nm)
+            all_types.append(nm + "Ptr")
+        src.append("type %s struct {\n%s\n}\n" % (nm, "\n".join(src_first + sf)))
+        dst.append("type %s struct {\n%s\n\tExtra%d int\n}\n" % (nm, "\n".join(df), k))
+        if "manual" in feats:
+            src.append("func (s *%s) toDest(d *dest.%s) {\n\td.Extra%d = s.ID + 1\n}\n" % (nm, nm, k))
+        bodies[nm] = "gen"
+        all_types.append(nm)
+    src_txt = "\n".join(x for x in src if x is not None)
+    if "dest." in src_txt:
+        src_txt = src_txt.replace("package src\n", "package src\n\nimport \"@DEST@\"\n", 1)   # the case's destination package
+    files = {"src/s.go": src_txt, "dest/d.go": "\n".join(dst)}
+    feats = {"map": 1, "map-rich": 1, "types-%d" % n: 1}
+    return {"cmd": "map", "flags": ["-path=../dest"], "files": files, "cwd": "src", "gofile": "s.go", "types": names,
+            "all_types": all_types, "setup": [], "model": simple_model(bodies), "feats": feats, "star": False, "rich": True}
+
+
 def hand_map_pkgs(rng):
     out = []
     # F_mapCtorLeak: destination of the first pair is a shoot-new type with constructor, the second pair is plain
@@ -489,7 +541,7 @@ def gen_rest_pkg(rng, force=None):
             "all_types": names, "setup": [], "model": simple_model(bodies), "feats": feats, "star": star, "bodies": bodies}
 
 
-GENS = {"new": gen_new_pkg, "map": gen_map_pkg, "enum": gen_enum_pkg, "rest": gen_rest_pkg}
+GENS = {"new": gen_new_pkg, "map": gen_map_pkg, "maprich": gen_map_rich_pkg, "enum": gen_enum_pkg, "rest": gen_rest_pkg}
 
 
 # ------------------------------------------------------------------------------------------------
@@ -550,7 +602,7 @@ def new_lines(name, facts):
     return {"nparams:" + name: str(len(f["params"])), "gi:" + name: csv(f["gi"]), "si:" + name: csv(f["si"]),
             "gl:" + name: csv(f["gl"]), "sl:" + name: csv(f["sl"]), "json:" + name: "true" if f["json"] else "false",
             "jget:" + name: csv(sorted(f["jget"])), "jset:" + name: csv(sorted(f["jset"])), "jexp:" + name: csv(sorted(f["jexp"])),
-            "tags:" + name: csv(sorted(f["tags"])), "opts:" + name: csv(f["opts"]), "defs:" + name: csv(f["defs"])}
+            "tags:" + name: ";".join(sorted(f["tags"])) if f["tags"] else "-", "opts:" + name: csv(f["opts"]), "defs:" + name: csv(f["defs"])}
 
 
 def map_lines(name, f):
